@@ -88,6 +88,18 @@ def mask_allows(env: Any, mask: np.ndarray, a: Any) -> bool:
     return bool(np.asarray(mask)[int(a[0]), int(a[1]), int(a[2])])
 
 
+def check_reaction(env: Any, s: Any, a: Any, s2: Any, ts: Any, masked_in: bool) -> List[str]:
+    """Own reaction: the invalid-action path ends the episode at once; an accepted action ends it only
+    when no legal action remains on the new board."""
+    last = int(ts.step_type) == 2
+    if not masked_in and not last:
+        return [f"masked-out-action-accepted: action {np.asarray(a).tolist()} is masked-out but the episode goes on"]
+    if masked_in and last and _legal_board(s2.board).any():
+        return [f"masked-in-action-punished: action {np.asarray(a).tolist()} is masked-in but the episode ended "
+                "although legal actions remain"]
+    return []
+
+
 # ---------------------------------------------------------------------------------- C05
 def check_illegal(env: Any, s: Any, a: Any, s2: Any, ts: Any) -> List[str]:
     out = []
